@@ -116,19 +116,23 @@ Problems == {<<ks, rf, order, ic>> : ks \in UNION {[1..n -> Kinds] : n \in 1..Ma
 
 Solvers == {"SolveUnc", "SolveExp2", "SolveExp1"}
 Reps == {[solver |-> s, mform |-> mf, coupling |-> c, pre_eig |-> pe, rbgiven |-> rg, layout |-> lay] :
-            s \in Solvers, mf \in {"none", "vec", "mat"}, c \in {"diag", "coupled", "kcoupled"}, pe \in BOOLEAN,
+            s \in Solvers, mf \in {"none", "vec", "mat"}, c \in {"diag", "coupled", "kcoupled", "ncoupled"}, pe \in BOOLEAN,
             rg \in BOOLEAN, lay \in {"contiguous", "interleaved", "rffirst"}}
 
 \* couplings: "diag" (all matrices diagonal), "coupled" (mass, damping and stiffness full on the elastic block), "kcoupled" (a DIAGONAL,
 \* non-uniform mass handed over as a vector next to full damping and stiffness - the mass form that makes the modal pre-transformation
 \* weight physical initial conditions by a vector)
-IsCoupled(r) == r.coupling \in {"coupled", "kcoupled"}
+\* "ncoupled": the coupled system with the equations of its elastic block combined by a well-conditioned L (m, b, k full and NOT symmetric;
+\* same solution): the solvers take general matrices, and inv(m) and its transpose are then different things
+IsCoupled(r) == r.coupling \in {"coupled", "kcoupled", "ncoupled"}
+FullCoupled(r) == r.coupling \in {"coupled", "ncoupled"}
 HasRb(p) == \E i \in 1..Len(p[1]) : IsRb(p[1][i])
 NEl(p) == Cardinality({i \in 1..Len(p[1]) : ~IsRb(p[1][i])})
 \* the documented domain of each representation
 Legal(p, r) ==
   /\ (r.coupling = "coupled" => (NEl(p) >= 2 /\ r.mform # "vec"))          \* coupling needs two elastic equations, full matrices
   /\ (r.coupling = "kcoupled" => (NEl(p) >= 2 /\ r.mform = "vec" /\ ~HasRb(p)))
+  /\ (r.coupling = "ncoupled" => (NEl(p) >= 2 /\ r.mform = "mat" /\ ~r.pre_eig))
   /\ (r.mform = "vec" => r.coupling \in {"diag", "kcoupled"})
   /\ (r.pre_eig => (((r.coupling = "coupled" /\ r.mform = "mat") \/ r.coupling = "kcoupled") /\ ~p[2] /\ r.layout = "contiguous"))
                                                  \* pre_eig: symmetric full matrices; modal order is the eigen-solver's
@@ -141,14 +145,14 @@ Legal(p, r) ==
   \* "rffirst": problem order kept, the residual-flexibility equation placed in FRONT of every other equation
   \* static initial conditions solve K_el x = F on the equations NOT declared rigid-body: a damped rigid-body equation that is neither
   \* auto-detected (coupled systems) nor declared makes that solve singular - outside the documented use of static_ic
-  /\ ((\E i \in 1..Len(p[1]) : p[1][i] \in {"rbl", "rbv", "rbd"}) /\ r.coupling = "coupled" /\ ~r.rbgiven => ~IcRule[p[4]][3])
+  /\ ((\E i \in 1..Len(p[1]) : p[1][i] \in {"rbl", "rbv", "rbd"}) /\ FullCoupled(r) /\ ~r.rbgiven => ~IcRule[p[4]][3])
   \* "soft": its stiffness per unit mass is BELOW the documented auto-detection threshold (0.005): handing it over mass-normalised
   \* (m = None, or through pre_eig) with automatic rigid-body detection legitimately turns it into a rigid-body equation
   /\ ((\E i \in 1..Len(p[1]) : p[1][i] = "soft") => (~r.pre_eig /\ (r.mform # "none" \/ r.rbgiven)))
   /\ (r.layout = "rffirst" => (p[2] /\ ~r.pre_eig /\ r.solver # "SolveExp1"))
   /\ (\E i \in 1..Len(p[1]) : p[1][i] \in {"rbl", "rbv", "rbd"}) => (r.coupling = "diag" \/ ~r.rbgiven)
   \* auto-detection of a DAMPED rigid-body mode works for uncoupled systems only (documented): give it explicitly or keep diagonal
-  /\ ((\E i \in 1..Len(p[1]) : p[1][i] \in {"rbl", "rbv", "rbd"}) /\ r.solver = "SolveUnc" /\ r.coupling = "coupled" => r.rbgiven)
+  /\ ((\E i \in 1..Len(p[1]) : p[1][i] \in {"rbl", "rbv", "rbd"}) /\ r.solver = "SolveUnc" /\ FullCoupled(r) => r.rbgiven)
 
 \* abstract state the constructor must reach (SolveUnc / SolveExp2): index sets in the order the representation lays them out
 Predict(p, r) == [nrb |-> Cardinality({i \in 1..Len(p[1]) : IsRb(p[1][i])}), nel |-> NEl(p), nrf |-> IF p[2] THEN 1 ELSE 0,
